@@ -76,6 +76,10 @@ func optFlags(s string) []rs.Option {
 	}
 	for _, t := range strings.Split(s, ",") {
 		switch t {
+		case "leo8f":
+			o = append(o, rs.WithLeopardGF(false))
+		case "leo16f":
+			o = append(o, rs.WithLeopardGF16(false))
 		case "leo8":
 			o = append(o, rs.WithLeopardGF(true))
 		case "leo16":
